@@ -911,18 +911,25 @@ fn info_spec(d: &TopDoc, version: &Option<String>, fallback_usage: bool) -> Info
 /// a struct type
 pub fn gen_struct(u: &mut Un, ix: usize) -> TypeIR {
     let mut pools = Pools::new();
-    let name = format!("Opts{}", ix);
     let fields = gen_fields(u, &mut pools, 5, true);
+    let mode = u.below(8);
+    // a top level `command` takes its default name from the type name (kebab-case): those types
+    // get a name of several words
+    let name = if mode == 7 {
+        format!("{}{}", ["RunTask", "CheckConnection", "DoIt", "FetchAllNow"][ix % 4], ix)
+    } else {
+        format!("Opts{}", ix)
+    };
     // doc layout and explicit override are stratified over the type index so that every
     // combination occurs in every family
     let top = gen_top_doc_k(u, &name, ix % 4);
-    let mode = u.below(7);
     let mut attrs: Vec<String> = Vec::new();
     let mut derived_fn = snake(&name);
     let mut parser_mode = false;
     let mut version = None;
     let mut fallback_usage = false;
     let mut boxed = false;
+    let mut top_command: Option<(String, Vec<char>, Vec<String>)> = None;
     match mode {
         0 | 1 => attrs.push("options".into()),
         2 => {
@@ -947,6 +954,27 @@ pub fn gen_struct(u: &mut Un, ix: usize) -> TypeIR {
                 attrs.push("boxed".into());
                 boxed = true;
             }
+        }
+        7 => {
+            let cname = if u.chance(90) {
+                let c = format!("task{}", ix);
+                attrs.push(format!("command({})", lit(&c)));
+                c
+            } else {
+                attrs.push("command".into());
+                kebab(&name)
+            };
+            let mut shorts = Vec::new();
+            let mut longs = Vec::new();
+            if u.chance(80) {
+                attrs.push("short('T')".into());
+                shorts.push('T');
+            }
+            if u.chance(60) {
+                attrs.push("long(\"top-alias\")".into());
+                longs.push("top-alias".to_owned());
+            }
+            top_command = Some((cname, shorts, longs));
         }
         _ => parser_mode = true,
     }
@@ -1010,7 +1038,40 @@ pub fn gen_struct(u: &mut Un, ix: usize) -> TypeIR {
         src.push_str(&format!("pub struct {}(\n{});\n", name, fields.derive_src("    ")));
     }
     let body = fields.twin_src(&name);
-    let (twin_src, level) = if parser_mode {
+    let (twin_src, level) = if let Some((cname, shorts, longs)) = &top_command {
+        // a command: the type's own OptionParser (doc comment and annotations as for `options`)
+        // turned into a subcommand; the generated function returns a plain parser
+        let mut tw = format!(
+            "{}.to_options(){}.command({})",
+            body,
+            info_twin(&top, &version, fallback_usage),
+            lit(cname)
+        );
+        for c in shorts {
+            tw.push_str(&format!(".short({})", char_lit(*c)));
+        }
+        for l in longs {
+            tw.push_str(&format!(".long({})", lit(l)));
+        }
+        tw.push_str(".to_options()");
+        (
+            tw,
+            Level {
+                body: Node::Cmd(Box::new(CmdSpec {
+                    name: cname.clone(),
+                    shorts: shorts.clone(),
+                    longs: longs.clone(),
+                    help: None,
+                    adjacent: false,
+                    level: Level {
+                        body: fields.node(),
+                        info: info_spec(&top, &version, fallback_usage),
+                    },
+                })),
+                info: InfoSpec::default(),
+            },
+        )
+    } else if parser_mode {
         // the whole doc comment of a parser-mode type is its group help
         let gh = explicit_gh.clone().or_else(|| doc_text(&top.lines));
         let tw = format!(
@@ -1056,7 +1117,7 @@ pub fn gen_struct(u: &mut Un, ix: usize) -> TypeIR {
         derived_fn,
         twin_src,
         level,
-        parser_mode,
+        parser_mode: parser_mode || top_command.is_some(),
         implicit_rules: fields.fields.iter().map(|f| f.implicit_rules).sum::<usize>()
             + usize::from(!top.lines.is_empty()),
         explicit_annotations: fields.fields.iter().filter(|f| f.explicit).count() + attrs.len(),
@@ -1196,7 +1257,7 @@ pub fn gen_enum(u: &mut Un, ix: usize) -> TypeIR {
         }
         if commands {
             // command variant
-            let vdoc = gen_top_doc(u, v);
+            let mut vdoc = gen_top_doc(u, v);
             let cname_custom = u.chance(100);
             let cname = if cname_custom {
                 format!("cmd{}", vi)
@@ -1219,6 +1280,28 @@ pub fn gen_enum(u: &mut Un, ix: usize) -> TypeIR {
                 let l = format!("alias{}", vi);
                 battr.push(format!("long({})", lit(&l)));
                 longs.push(l);
+            }
+            // explicit header / footer of the command override the doc comment's
+            match u.below(6) {
+                0 => {
+                    let h = format!("Explicit header of {}", v);
+                    battr.push(format!("header({})", lit(&h)));
+                    vdoc.header = Some(h);
+                }
+                1 => {
+                    let f = format!("Explicit footer of {}", v);
+                    battr.push(format!("footer({})", lit(&f)));
+                    vdoc.footer = Some(f);
+                }
+                2 => {
+                    let h = format!("Explicit header of {}", v);
+                    let f = format!("Explicit footer of {}", v);
+                    battr.push(format!("header({})", lit(&h)));
+                    battr.push(format!("footer({})", lit(&f)));
+                    vdoc.header = Some(h);
+                    vdoc.footer = Some(f);
+                }
+                _ => {}
             }
             let hidden = u.chance(25);
             if hidden {
